@@ -1012,6 +1012,9 @@ def compare_state(exp, got, out):
     compare(a, b, p, out)
 
 
+_SPELL = [0]
+
+
 def run_state(ctx, fedjax, rng, scratch):
   from fedjax.core import serialization as ser
   from fedjax.training import checkpoint
@@ -1034,7 +1037,8 @@ def run_state(ctx, fedjax, rng, scratch):
     root = os.path.join(d, 'ckpt')
     os.makedirs(root)
     rel = os.path.relpath(root, os.getcwd())
-    spelling = int(rng.randint(7))
+    _SPELL[0] += 1
+    spelling = _SPELL[0] % 7          # every spelling in turn (not drawn: each must be reached in every run)
     root = [root, root, rel, './' + rel, os.path.join(os.path.dirname(rel), '.', os.path.basename(rel)),
             os.path.dirname(rel) + '//' + os.path.basename(rel), root + '/'][spelling]
     wit['checkpoint_dir_spelling'] = ['absolute', 'absolute', 'relative', './relative', 'inner /./', 'doubled slash', 'trailing slash'][spelling]
